@@ -6,10 +6,10 @@ for m in sorted(glob.glob('/verif/seeded/*/meta.json')):
     d = json.load(open(m))
     title = d.get('title', '').replace('|', '/')
     first = 'missed' if d.get('initially_missed') else 'caught'
-    rows.append(f"| {d['id']} | {title} ({', '.join(d.get('files', []))[:80]}) | {first} | {d.get('detected_by', '')} |")
+    rows.append(f"| {d['id']} | {d.get('round', 1)} | {title} ({', '.join(d.get('files', []))[:80]}) | {first} | {d.get('detected_by', '')} |")
 p = '/verif/DESIGN.md'
 s = open(p).read()
-head = "| id | change | first run | now caught by |\n|---|---|---|---|\n"
+head = "| id | round | change | first run | now caught by |\n|---|---|---|---|---|\n"
 i = s.index(head) + len(head)
 j = s.index("\n\n", i)
 s = s[:i] + "\n".join(rows) + s[j:]
